@@ -19,6 +19,32 @@ NONTRIVIAL = ("a run is non-trivial if the scheduler had at least one decision p
               "or at least one injected fault fired; distinct = distinct (scenario, plan hash, event-log hash)")
 
 PROPS = {
+    "C01": {
+        "rule": "L0: one generated request or response per run (methods, paths, 0..4 query parameters, registered and unknown headers, cookies, no body / "
+                "Content-Length / chunked bodies whose chunk sizes cross hex-digit boundaries; 35 % with one small mutation) delivered to a fresh parser "
+                "in EVERY single cut and byte-by-byte (enumerated completely) plus 10..24 drawn multi-cut segmentations, compared with delivery of the "
+                "whole message at once; L1: 1..5 generated requests sent whole and cut through simulated sockets to a real endpoint; distinct = "
+                "distinct (scenario, plan hash, event-log hash); a run is non-trivial if at least one segmentation was delivered",
+        "probes_expected": ["request-complete", "request-error", "request-incomplete", "response-complete", "response-error", "response-incomplete",
+                            "cut-inside-crlf", "cut-inside-chunk-framing", "trailing-bytes-after-message", "l1-served", "l1-error-status", "l1-unanswered"],
+        "assumptions": ["messages up to the configured size limit (beyond it C14 applies)",
+                        "for a mutated byte string the message proper is its shortest complete prefix; bytes after it belong to what follows"],
+        "quick": {"batches": [("c01_l0", "plain", 6000), ("c01_l1", "plain", 2000), ("c01_l0", "asan", 600)], "chunk": 100},
+        "thorough": {"batches": [("c01_l0", "plain", 300000), ("c01_l1", "plain", 60000), ("c01_l0", "asan", 30000), ("c01_l1", "asan", 6000)], "chunk": 500},
+    },
+    "C04": {
+        "rule": "L0: sequences of 2..8 generated messages (complete, or abandoned by an error in mid-message: size limit, bad chunk size, conflicting "
+                "framing, other mutations), each in its own drawn segmentation, on one reused parser (reset where Handler::onInput / "
+                "Connection::handleResponsePacket reset it) versus a fresh parser per message; L1: the same sequences on one keep-alive connection "
+                "to a real endpoint versus a fresh connection per message; distinct = distinct (scenario, plan hash, event-log hash)",
+        "probes_expected": ["after-first", "after-complete-no-body", "after-complete-content-length", "after-complete-chunked", "after-error-413-in-oversized-body",
+                            "after-error-400-in-chunked", "after-error-400-in-content-length", "l1-after-first", "l1-after-complete-chunked",
+                            "l1-after-error-413-in-oversized-body"],
+        "assumptions": ["every message starts in a new segment (pipelining inside one read is outside the statement)",
+                        "an abandoned message ends with the segment that triggers the framework's error answer"],
+        "quick": {"batches": [("c04_l0", "plain", 8000), ("c04_l1", "plain", 1500), ("c04_l0", "asan", 800)], "chunk": 100},
+        "thorough": {"batches": [("c04_l0", "plain", 400000), ("c04_l1", "plain", 40000), ("c04_l0", "asan", 40000), ("c04_l1", "asan", 4000)], "chunk": 500},
+    },
     "C08": {
         "rule": "1..4 rounds of 1..6 concurrent connections against Http::Endpoint (75 %) or a raw Tcp::Listener (25 %), client behaviour drawn per "
                 "connection from 18 kinds (orderly, close mid-request, half-close, RST idle / with unread data / with pending writes, silence, partial "
@@ -102,6 +128,10 @@ PROPS = {
 
 SC_NOTE = "sequentially consistent memory; the simulated kernel follows Linux semantics; a clean batch is evidence, not proof"
 MANIFEST_TEXT = {
+    "C01": {"level": "every single cut and the byte-by-byte delivery of each generated message enumerated completely, multi-cut segmentations sampled, differential against whole-at-once delivery; confirmed through simulated sockets against the real endpoint",
+            "design_ref": "4.1", "note": "differential oracle against the same build (no second opinion about HTTP); the exhaustive sub-space is per generated message, the space of messages is sampled; " + SC_NOTE},
+    "C04": {"level": "seeded search over message sequences x segmentations x abandon points, differential between a reused and a fresh parser / connection",
+            "design_ref": "4.3", "note": "the L0 part drives the parser with the reset protocol of Handler::onInput; the reset call sites themselves are exercised by the L1 part (real endpoint) and by C15 (real client); " + SC_NOTE},
     "C08": {"level": "seeded search over connection-event histories (18 client behaviours, 1..6 concurrent connections, several rounds) with callback-sequence, exactly-once-release, descriptor-census and peer-release oracles",
             "design_ref": "4.6", "note": "double releases are observed by the simulated kernel (close / epoll_ctl / I/O on a descriptor that is not open); " + SC_NOTE},
     "C14": {"level": "seeded search over request sizes around the drawn limit x segmentations, and over stall points x stall durations on either side of the drawn time-outs, on the simulated clock",
@@ -129,8 +159,6 @@ NOT_APPLICABLE = {
     "C18": "media type round trip: " + PURE,
     "C19": "address/port text forms: " + PURE,
     "C20": "Base64 / Basic credentials: " + PURE,
-    "C01": "check under construction (DESIGN.md section 9); not yet claimed",
     "C03": "check under construction (DESIGN.md section 9); not yet claimed",
-    "C04": "check under construction (DESIGN.md section 9); not yet claimed",
     "C15": "check under construction (DESIGN.md section 9); not yet claimed",
 }
